@@ -630,8 +630,7 @@ Definition validate_hdf5_report (f : h5file) : result (bool * list msg) :=
        end ;;
   v <- match aget (h_attrs f) (K "format-version") with
        | None => ROk []
-       | Some (AInts [2; 1]) => hv_metadata_v210 f
-       | Some (AInts _) => ROk [[HMSG_VERSION]]
+       | Some (AInts l) => if list_eqb Z.eqb l [2; 1] then hv_metadata_v210 f else ROk [[HMSG_VERSION]]
        | Some _ => RErr E_UNMODELLED
        end ;;
   let lines := a ++ g ++ d ++ i0 ++ i1 ++ s ++ v in
